@@ -4,8 +4,8 @@ import hirq, anchors, absx, sem, driver
 
 EXPLANATION = ("R1 path-sensitive extraction of the envelope decoder: on every success path the returned id is parse_uint of the "
                "universal INTEGER primitive child adjacent to the protocolOp child - narrowed to the 32-bit RequestId only after a range "
-               "test or by a checked conversion -, controls come from the trailing [0] constructed child; R2 every routing-map access and ID release in the driver's response arm is keyed by the ID decoded from that "
-               "very response; R3 every reply send in that arm goes to the sender obtained by that lookup and carries only data of the "
+               "test or by a checked conversion -, controls come from the trailing [0] constructed child; R2 on the enumerated paths of the driver's response arm every routing-map access and ID release is keyed by the ID decoded from that "
+               "very response; R3 every reply send in that arm (a delivery call by role: a call on a reply / item sender that is handed a message of the channel's type) goes to the sender obtained by that lookup and carries only data of the "
                "same decoded message; R4 the protocolOp classification table equals RFC 4511 (4,25 -> Entry; 19 -> Referral; 5 -> Done, "
                "only Done ends the search); R5 on every path of the response arm a reply send, a registration or an ID release comes after a lookup of the decoded ID that found an operation (a message nobody waits for reaches nobody and changes nothing); R6 registration keys/values "
                "in the request arm; R7 the request tuple carries the allocated ID and the reply channel that is awaited; R8 only the driver "
